@@ -665,7 +665,7 @@ Section Proofs.
 
   (* ---------------------------------------------------------------- the source's hand-over agrees with the
      specification as long as no view is taken through a stale slot *)
-  Definition Qs : quirks := mkQ true false false.
+  Definition Qs : quirks := mkQ true false false false.
   Notation Fs := (step V J jeqb vj cv cvi fmt_to cv_iter Qs).
   Notation runF := (run V J jeqb vj cv cvi fmt_to cv_iter Qs).
   Notation set_heap_sl := (set_heap_sl V J).
@@ -947,9 +947,9 @@ Definition w_step := step tV tJ tJ_eqb w_vj w_cv w_cvi w_fmt_to true.
 Definition w_run := run tV tJ tJ_eqb w_vj w_cv w_cvi w_fmt_to true.
 Definition w_init := init tV tJ tJ_eqb w_vj.
 Definition w_R : list tJ := [(1, 11); (2, 12); (3, 13); (4, 14)].
-Definition Q_side := mkQ true false false.
-Definition Q_cache := mkQ false true false.
-Definition Q_rebuild := mkQ false false true.
+Definition Q_side := mkQ true false false false.
+Definition Q_cache := mkQ false true false false.
+Definition Q_rebuild := mkQ false false true false.
 
 (* t[0]; t.view(): four values, one bare jd pair *)
 Lemma side_channel_misaligned :
